@@ -890,8 +890,34 @@ func (e *Engine) external(fr *frame, st *State, in *ssa.Call, f *ssa.Function, a
 	case "errors.New", "fmt.Errorf":
 		e.fresh(st, in)
 		st.nonnil[e.vid(in)] = true
-	case "fmt.Sprintf", "fmt.Sprint", "fmt.Sprintln", "strings.TrimSuffix", "strings.ReplaceAll":
+	case "fmt.Sprintf", "fmt.Sprint", "fmt.Sprintln", "strings.TrimSuffix", "strings.ReplaceAll",
+		"strconv.Itoa", "strconv.FormatInt", "strconv.FormatUint", "strconv.Quote":
 		e.fresh(st, in) // total; result length unknown
+	case "(*strings.Builder).WriteString", "(*strings.Builder).WriteByte", "(*strings.Builder).WriteRune", "(*strings.Builder).Write",
+		"(*strings.Builder).String", "(*strings.Builder).Len", "(*strings.Builder).Reset",
+		"(*bytes.Buffer).WriteString", "(*bytes.Buffer).WriteByte", "(*bytes.Buffer).WriteRune", "(*bytes.Buffer).Write",
+		"(*bytes.Buffer).String", "(*bytes.Buffer).Len", "(*bytes.Buffer).Reset":
+		// total on a non-nil buffer; the buffer's own memory is not modelled
+		if len(args) > 0 {
+			e.oblige(fr, "B-NIL", in, "buffer", e.isNonNil(st, args[0]), "method of a library buffer needs a non-nil receiver")
+		}
+		e.freshCallResult(st, in)
+	case "fmt.Fprintf", "fmt.Fprint", "fmt.Fprintln":
+		// total when the writer is an in-memory buffer (its Write cannot fail or call back)
+		okW := false
+		if len(args) > 0 {
+			if mi, isMI := args[0].(*ssa.MakeInterface); isMI {
+				switch mi.X.Type().String() {
+				case "*strings.Builder", "*bytes.Buffer":
+					okW = e.isNonNil(st, mi.X)
+				}
+			}
+		}
+		if !okW {
+			e.oblige(fr, "B-EXT", in, name, false, "call of "+name+" on a writer that is not a non-nil *strings.Builder / *bytes.Buffer: not in the trusted model table")
+			e.havocAllMemory(st)
+		}
+		e.freshCallResult(st, in)
 	default:
 		if strings.HasPrefix(name, "reflect.") || strings.HasPrefix(name, "(reflect.") || strings.HasPrefix(name, "(*reflect.") {
 			e.reflectCall(fr, st, in, name, args)
